@@ -273,13 +273,18 @@ def main(argv=None):
                 ev["micropool"] = run_micropool(c, pool)
                 ev["hash"] = run_hash_phase(c)
             # ---- violations: minimise the earliest one per signature (at most 3)
-            seen = set()
+            # one report per signature (at most 3): among the runs that show it, minimise the smallest one
+            def size(r):
+                sc = r["scenario"]
+                rows = sum(len(f["cols"][0][2]) if f["cols"] else 0 for f in sc["frames"].values())
+                return (r["violation"]["step"] + 1) * 50 + rows
+
+            by_sig = {}
             for r in agg["violations"]:
                 v = r["violation"]
-                k = (v["oracle"], v["kind"], v["key"])
-                if k in seen or len(seen) >= 3:
-                    continue
-                seen.add(k)
+                by_sig.setdefault((v["oracle"], v["kind"]), []).append(r)
+            for k in list(by_sig)[:3]:
+                r = min(by_sig[k], key=size)
                 handle_violation(c, pool, r, {"phase": "exploration", "run_seed": r["run_seed"]})
         finally:
             pool.close()
